@@ -9,7 +9,7 @@ Import ListNotations. Open Scope Z_scope.
 
 Arguments set_locals fr v /. Arguments set_raw fr v /. Arguments set_action fr v /. Arguments set_where fr v /.
 Arguments set_published fr v /. Arguments set_clone fr v /. Arguments set_id fr v /. Arguments set_prev fr v /.
-Arguments set_slot fr v /.
+Arguments set_slot fr v /. Arguments set_result fr v /.
 Arguments st_disp st v /. Arguments st_data st r n /. Arguments st_fallback st v /. Arguments st_inst st v /.
 Arguments stuck fr st /.
 
